@@ -20,7 +20,10 @@ def make_alg(spec):
         return fn
     ns = {}
     for n in spec["handlers"]:
-        exec(f"def {n}(self, o, *ops):\n    return '{n}'", {}, ns)
+        # MultiFunction handlers with a name of even length are cutoff-style (self, o): map_expr_dag then does
+        # not visit the operands (the per-class table _is_cutoff_type is part of what registration must refresh)
+        sig = "(self, o)" if spec["kind"] == "MF" and len(n) % 2 == 0 else "(self, o, *ops)"
+        exec(f"def {n}{sig}:\n    return '{n}'", {}, ns)
     base = MultiFunction if spec["kind"] == "MF" else Transformer
     return type(spec["name"], (base,), ns)
 
@@ -95,6 +98,11 @@ def main():
                     if getattr(inst, n, None) == h:
                         nm = n
                         break
+                if kinds[ai] == "MF":
+                    # the cutoff flag of the type must be the one of the selected handler
+                    from ufl.corealg.multifunction import get_num_args
+                    if bool(inst._is_cutoff_type[tc]) != (get_num_args(h) == 2):
+                        nm = "CUTOFF-MISMATCH:" + nm
                 out.append(nm)
             except IndexError:
                 out.append("IndexError")
